@@ -385,7 +385,7 @@ contract(
         "unchanged(self)", "unchanged(dest_time_zone)",
         # re-expressing a 24:00 point in the offset it already has keeps it 24:00
         # (what str() of such a point relies on)
-        "implies(self._hour_of_day == 24 and dest_time_zone._hours == self._time_zone._hours"
+        "implies(dest_time_zone._hours == self._time_zone._hours"
         " and dest_time_zone._minutes == self._time_zone._minutes,"
         " tp_same_date_time(result, self))"],
     cases=tz_cases() + [
